@@ -96,10 +96,10 @@ theorem step_first (r : Option Rec) (b total : Nat) (payload : Bytes) (hb : b % 
           .complete (combined ⟨total, b / 32 % 8, payload.length, [(0, payload)]⟩))
       else (some ⟨total, b / 32 % 8, payload.length, [(0, payload)]⟩, .stored) := by
   cases r with
-  | none => simp [step, hb]
+  | none => simp [step, hb, startsNew]
   | some x =>
     have := h0 x rfl
-    simp [step, hb, this]
+    simp [step, hb, this, startsNew]
 
 
 /-! ### `insertFrame` / `hasFrame` on a filtered, key-sorted list of frames -/
